@@ -95,6 +95,10 @@ class Svc(Service):
     def bwhen(ctx, t):
         return t
 
+    @rpc(Array(Array(Integer)), _returns=Array(Array(Integer)), _body_style='bare')
+    def bgrid(ctx, rows):
+        return rows
+
 
 PROTOCOLS = {'json': JsonDocument, 'yaml': YamlDocument, 'msgpack': MessagePackDocument,
              'msgpack-bkey': MessagePackDocument}     # -bkey: the method key is sent as msgpack bin
@@ -746,11 +750,11 @@ def _exact_scaled(d, k):
     return -n if sign else n
 
 
-BARE = {'bint': 'int', 'bints': ['int'], 'binner': 'Inner', 'binners': ['Inner'], 'bwhen': 'datetime'}
+BARE = {'bint': 'int', 'bints': ['int'], 'binner': 'Inner', 'binners': ['Inner'], 'bwhen': 'datetime', 'bgrid': [['int']]}
 
 
 @harness('C02', params=[(c, m) for c in CONFIGS for m in sorted(BARE)], label=lambda p: LABEL(p[0]) + ' method=' + p[1], functions=FUNCS,
-         bounds={'signatures': 'bare body style with an integer, an array of 0..2 integers, an object, an array of 0..2 objects, a DateTime (years 0001..9999, naive / UTC / any offset); the '
+         bounds={'signatures': 'bare body style with an integer, an array of 0..2 integers, an object, an array of 0..2 objects, a DateTime (years 0001..9999, naive / UTC / any offset), an array of arrays of integers; the '
                                'argument under the method key in the same conventions as a member of that type',
                  'values': 'unbounded integer, strings of one arbitrary code point'})
 def bare_signatures(sx, p):
@@ -780,6 +784,23 @@ def bare_signatures(sx, p):
         if wire == 'msgpack':
             node = _as_text(sx, node)
         return sx.And(same, sx.is_str(node), sx.eq(node, text))
+    if typ == [['int']]:
+        # an array of arrays: rows of 2, 0 and 1 items (or no rows at all)
+        shape = sx.choose('rows', [(2, 0, 1), (1,), ()])
+        val = [[sx.int('x%d_%d' % (r, c), -2 ** 66, 2 ** 66) for c in range(k)] for r, k in enumerate(shape)]
+        ctx = deliver(sx, pname, app, server, {meth: [[enc_int(sx, x, wire) for x in row] for row in val]})
+        got = ctx.in_object
+        if got is None or len(got) != len(val) or any(g is None or len(g) != len(v) for g, v in zip(got, val)):
+            return False
+        ok = [_leaf_eq(sx, 'int', g, v) for grow, vrow in zip(got, val) for g, v in zip(grow, vrow)]
+        doc = respond(sx, pname, app, ctx, [got])
+        if not isinstance(doc, (list, tuple)) or len(doc) != 1:
+            return False
+        node = _denorm(doc[0])
+        if not isinstance(node, list) or len(node) != len(val) or any(not isinstance(r, list) or len(r) != len(v) for r, v in zip(node, val)):
+            return False
+        ok += [_leaf_eq(sx, 'int', nd, v, wire) for nrow, vrow in zip(node, val) for nd, v in zip(nrow, vrow)]
+        return sx.And(*ok)
     if isinstance(typ, list):
         n = sx.choose('n', [2, 1, 0])
         val = [sx.int('x%d' % i, -2 ** 66, 2 ** 66) if typ[0] == 'int' else mk_inner(sx, 'o%d' % i, wire is None) for i in range(n)]
